@@ -10,8 +10,10 @@ Reference semantics for C14, written without looking at how `src/expression.rs` 
   parenthesis nodes.  `Cst.flatten` is the rendered text, `Cst.toAst` forgets layout and parentheses.
 * `Conv` — conventional parenthesisation: `^` right-associative and tighter than unary minus (whose
   operand may itself be a power or a unary minus), `* /` left-associative above `+ -`, a unary minus may
-  directly follow a binary operator (`2*-3`, `2--3`, `2^-1`); anything else needs parentheses; extra
-  parentheses are allowed anywhere.
+  directly follow `+ - * /` (`2*-3`, `2--3`); both operands of `^` bind at least as tight as `^`
+  (base: an atom; exponent: an atom or another power), so a signed exponent is written `2^(-1)` — a
+  bare `2^-1` is outside the grammar (a `^` that is not followed by an operand of the power level is a
+  dangling operator); anything else needs parentheses; extra parentheses are allowed anywhere.
 * `layOut` — the conventional renderer: minimal parentheses, blanks and optional redundant parentheses
   taken from a `Layout`.
 * `Stops` — remainders that cannot continue an expression.
@@ -24,8 +26,8 @@ inductive Fn where
 deriving DecidableEq, Repr, Inhabited
 
 def Fn.name : Fn → List Char
-  | .sin => "sin".toList | .cos => "cos".toList | .tan => "tan".toList
-  | .exp => "exp".toList | .ln => "ln".toList | .sqrt => "sqrt".toList
+  | .sin => ['s', 'i', 'n'] | .cos => ['c', 'o', 's'] | .tan => ['t', 'a', 'n']
+  | .exp => ['e', 'x', 'p'] | .ln => ['l', 'n'] | .sqrt => ['s', 'q', 'r', 't']
 
 inductive BinOp where
   | add | sub | mul | div | pow
@@ -176,7 +178,7 @@ def Cst.level : Cst → Nat
 def BinOp.needs : BinOp → Nat × Nat
   | .add | .sub => (0, 1)
   | .mul | .div => (1, 2)
-  | .pow => (4, 2)
+  | .pow => (4, 3)
 
 /-- Conventionally parenthesised. -/
 def Conv : Cst → Bool
@@ -185,14 +187,6 @@ def Conv : Cst → Bool
   | .neg _ a => 2 ≤ a.level && Conv a
   | .app _ _ _ a _ => Conv a
   | .paren _ a _ => Conv a
-
-/-- Some `^` has an unparenthesised unary minus as exponent (`2^-1`). -/
-def Cst.bareNegExponent : Cst → Bool
-  | .lit _ _ => false
-  | .bin op a _ b => (op == .pow && b.level == 2) || a.bareNegExponent || b.bareNegExponent
-  | .neg _ a => a.bareNegExponent
-  | .app _ _ _ a _ => a.bareNegExponent
-  | .paren _ a _ => a.bareNegExponent
 
 /-- Some integer literal exceeds 2^64 - 1. -/
 def Cst.bigInt : Cst → Bool
@@ -203,11 +197,29 @@ def Cst.bigInt : Cst → Bool
   | .app _ _ _ a _ => a.bigInt
   | .paren _ a _ => a.bigInt
 
+/-- All tokens well formed. -/
+def Ast.WF : Ast → Bool
+  | .lit t => t.WF
+  | .bin _ a b => a.WF && b.WF
+  | .neg a => a.WF
+  | .app _ a => a.WF
+
+/-- Some integer literal exceeds 2^64 - 1. -/
+def Ast.bigInt : Ast → Bool
+  | .lit (.int ds) => 2 ^ 64 ≤ digitsToNat ds
+  | .lit _ => false
+  | .bin _ a b => a.bigInt || b.bigInt
+  | .neg a => a.bigInt
+  | .app _ a => a.bigInt
+
 /-- Layout: a supply of blank strings and of "put redundant parentheses here" flags, consumed in order. -/
 structure Layout where
   blanks : List Blank
   parens : List Bool
 deriving Repr, Inhabited
+
+/-- Every string of the supply consists of white space. -/
+def Layout.OK (l : Layout) : Prop := ∀ w ∈ l.blanks, w.all isBlank = true
 
 def Layout.blank (l : Layout) : Blank × Layout :=
   match l.blanks with
